@@ -201,6 +201,34 @@ fn misc() -> (usize, Vec<Value>) {
         ledger::track(|| drop(b));
         check!("box release once", payload::drops(1) == 1 && ledger::snap().live == base.live && ledger::snap().anomalies == base.anomalies,
                "drops {} live {} anomalies {:?}", payload::drops(1), ledger::snap().live as i64 - base.live as i64, ledger::anomalies_since(base.anomalies));
+        // boxes over payloads of other sizes and alignments: one byte, zero-sized with a destructor, over-aligned
+        {
+            use std::sync::atomic::{AtomicUsize, Ordering::SeqCst};
+            static XD: AtomicUsize = AtomicUsize::new(0);
+            struct Small(u8);
+            impl Drop for Small { fn drop(&mut self) { XD.fetch_add(1, SeqCst); } }
+            struct Nothing;
+            impl Drop for Nothing { fn drop(&mut self) { XD.fetch_add(1, SeqCst); } }
+            #[repr(align(64))]
+            struct Wide { tag: u64, pad: [u8; 70] }
+            impl Drop for Wide { fn drop(&mut self) { if self.tag == 0xC0FFEE && self.pad[69] == 9 { XD.fetch_add(1, SeqCst); } } }
+            macro_rules! box_case { ($name:expr, $mk:expr) => {{
+                XD.store(0, SeqCst);
+                let base = ledger::snap();
+                let mut b = ledger::track(|| CBox::from($mk));
+                let inst = cview::cv_box_instance(vp(&b));
+                check!(concat!("box instance ", $name), inst == &*b as *const _ as *const c_void, "instance field is not the payload address");
+                ledger::track(|| cview::cv_box_release(vpm(&mut b)));
+                check!(concat!("box release ", $name), XD.load(SeqCst) == 1, "payload dropped {} times after C release", XD.load(SeqCst));
+                ledger::track(|| drop(b));
+                let s = ledger::snap();
+                check!(concat!("box release once ", $name), XD.load(SeqCst) == 1 && s.live == base.live && s.anomalies == base.anomalies,
+                       "drops {} live {} anomalies {:?}", XD.load(SeqCst), s.live as i64 - base.live as i64, ledger::anomalies_since(base.anomalies));
+            }}; }
+            box_case!("(1 byte)", Small(3));
+            box_case!("(zero-sized)", Nothing);
+            box_case!("(aligned to 64)", Wide { tag: 0xC0FFEE, pad: [9; 70] });
+        }
         // slices of every element size: data/len as C reads them
         macro_rules! slices { ($t:ty, $name:expr) => {{
             for len in 0..6usize {
